@@ -462,6 +462,10 @@ class Sim:
         else:
             raise AssertionError(op)
 
+        # coverage grid: operation x target kind x container kind x handle age x attached
+        cont = 'root' if m.kind == 'root' else ('arg' if m.parent is not None and m.parent.is_arg() else
+                                                (m.parent.kind if m.parent is not None else 'none'))
+        count('grid.%s.%s.in-%s.%s.%s' % (str(desc[0]).split('[')[0], m.kind, cont, src, 'attached' if att else 'detached'))
         before = self.model.ser()
         exc = None
         try:
